@@ -30,7 +30,7 @@ sh(f"rsync -a --exclude .git --exclude seeded --exclude replays --exclude eviden
 res = {}
 try:
     for sid in want:
-        d = f"{V}/seeded/{sid}"
+        d = os.environ.get("SEEDROOT", f"{V}/seeded") + f"/{sid}"
         if not os.path.exists(f"{d}/patch.diff"):
             continue
         meta = json.load(open(f"{d}/meta.json"))
